@@ -303,6 +303,9 @@ func genPlan(prop, tier string, seed uint64, faults bool) *Plan {
 	if tier == "quick" {
 		nops = r.Range(15, 50)
 	}
+	if prop == "C15" {
+		nops = r.Range(4, 30)
+	}
 	maxLive := 24
 	for i := 0; i < nops; i++ {
 		op := Op{N: i + 1}
@@ -326,6 +329,8 @@ func genPlan(prop, tier string, seed uint64, faults bool) *Plan {
 			w[8], w[9], w[10] = 4, 2, 2
 		case "C05", "C12":
 			w[8], w[3] = 5, 12
+		case "C15":
+			w[8], w[9], w[10] = 3, 1, 1
 		}
 		if len(g.livePods()) == 0 {
 			w[0] = 40
@@ -476,6 +481,12 @@ func genPlan(prop, tier string, seed uint64, faults bool) *Plan {
 	}
 	for i := range p.Ops {
 		p.Ops[i].N = i + 1
+	}
+	if prop == "C15" {
+		// the schedule is the subject: map iteration order is held canonical so
+		// that the sequential reference runs see the same orders
+		p.Order = int(verifrt.OrderCanonical)
+		g.genConc(p)
 	}
 	return p
 }
